@@ -55,8 +55,20 @@ CLAIMED = {
          "private, the work-shared loop variable or an element addressed through the loop variable; callees write only such locations; buffers that outlive a frame are "
          "re-initialised when the callee accumulates into them; sequential frame loops construct per-frame state inside the loop and advance by the per-frame stride. "
          "This establishes absence of cross-frame / cross-thread state, not bitwise arithmetic determinism.", _NOTE, "DESIGN.md §4 C08"),
+ "C13": ("first-access classification of the accumulator (clang AST), taint of the selection mask, table / literal checks, positional FFI conformance against the real C prototype",
+         "Decides that the SASA accumulator starts from zero for every frame, that the selection mask only decides which atoms are targets (blockers are all atoms), "
+         "the -1/0 output convention, residue-mode mapping and summation, non-mutation of the radii table, the area formula's constants, and that arguments keep "
+         "their meaning across sasa.py -> Cython -> C. Quadrature accuracy is numerical and not decided.", _NOTE, "DESIGN.md §4 C13"),
+ "C14": ("degree/radian unit inference and operator/index tables (Python), literal and guard analysis on the clang AST (Kabsch-Sander), sentinel-guard dominance",
+         "Decides units, strictness and cutoff plumbing of the Baker-Hubbard / Wernet-Nilsson criteria, which distance and which angle of the D-H...A triplet the index "
+         "tables select, the donor/acceptor element and filter tables, the Kabsch-Sander constants and proline guard, the best-two bookkeeping, and that no coordinate "
+         "is read through the -1 sentinel of an incomplete residue. Set equality near thresholds is numerical and not decided.", _NOTE, "DESIGN.md §4 C14"),
+ "C15": ("enum/switch/translation table bijection, guard dominance on the clang AST (skip, bounds, chain continuity)",
+         "Decides that the eight DSSP states, the character switch, the simplified translation and the documented code list agree (exhaustive, injective), that the output has one "
+         "code per residue per frame with 'NA' overlaid from the protein mask, that incomplete residues take part in no pattern, and that every i+-k access of the bridge / helix tests "
+         "is behind its bounds and same-chain tests. The DSSP rule logic itself is combinatorial and not decided.", _NOTE, "DESIGN.md §4 C15"),
 }
 _PENDING = "check not built yet in this round (design in DESIGN.md §4); will be claimed when its rules run clean"
-NA = {k: _PENDING for k in ["C05","C06","C07","C09","C10","C13","C14","C15"]}
+NA = {k: _PENDING for k in ["C05","C06","C07","C09","C10"]}
 NA["C16"] = ("every clause is numerical equality of computed arrays with closed-form expressions; no structural "
              "necessary condition covers more than one of the fifteen functions (DESIGN.md §5)")
